@@ -35,6 +35,9 @@ pub struct Case {
     pub sport: u16,
     pub dport: u16,
     pub msg: Msg,
+    /// IP header fields the responder is not documented to look at
+    #[serde(default)]
+    pub tweak: Option<IpTweak>,
 }
 
 pub fn case_strategy() -> impl Strategy<Value = Case> {
@@ -49,7 +52,7 @@ pub fn case_strategy() -> impl Strategy<Value = Case> {
         3 => (stun_req(), other_type).prop_map(|(base, mtype)| Msg::Other { base, mtype }),
         3 => hostile_stun().prop_map(Msg::Hostile),
     ];
-    (scenario_quiet(Fam::Any), prop_oneof![4 => port(), 1 => Just(65535u16)], prop_oneof![4 => port(), 1 => Just(65535u16)], msg).prop_map(|(scn, sport, dport, msg)| Case { scn, sport, dport, msg })
+    (scenario_levels(Fam::Any), prop_oneof![4 => port(), 1 => Just(65535u16)], prop_oneof![4 => port(), 1 => Just(65535u16)], msg, prop::option::weighted(0.25, crate::vf::props::c03::ip_tweak())).prop_map(|(scn, sport, dport, msg, tweak)| Case { scn, sport, dport, msg, tweak })
 }
 
 /// reply invariants of a binding success response for a request from (src ip, sport)
@@ -70,6 +73,7 @@ fn response_ok(a: &[u8], req_tid: &[u8; 16], net: &Net, sport: u16) -> Check {
 pub fn check(c: &Case, st: &mut Stats) -> Check {
     Sut::reset();
     st.eval();
+    let _ambient = AmbientGuard::set(&c.tweak);
     let sut = Sut::new(&c.scn.cfg);
     let net = &c.scn.net;
     let (bytes, tid): (Vec<u8>, [u8; 16]) = match &c.msg {
@@ -191,7 +195,7 @@ pub fn tcp_case_strategy() -> impl Strategy<Value = TcpCase> {
         2 => (1u16..64).prop_map(|h| ((h << 8) | 0x01) & 0x3fff).prop_map(|t| if t & 0x3fff == 1 { 0x0201 } else { t }),
         1 => any::<u16>().prop_map(|t| if t & 0x3fff == 1 { 2 } else { t & 0x3fff }),
     ];
-    (scenario_quiet(Fam::Any), port(), port(), stun_req_magic_big(), prop::option::weighted(0.5, 20u16..200), vec((stun_req(), prop::option::weighted(0.6, other_type)), 1..=3))
+    (scenario_levels(Fam::Any), port(), port(), stun_req_magic_big(), prop::option::weighted(0.5, 20u16..200), vec((stun_req(), prop::option::weighted(0.6, other_type)), 1..=3))
         .prop_map(|(scn, sport, dport, first, first_keep, later)| TcpCase { scn, sport, dport, first, first_keep, later })
 }
 
